@@ -138,6 +138,14 @@ ct!(rc5::RC5<u64, U12, U13>, "RC5_64_12_13", "RC5", both);
 ct!(rc5::RC5<u128, U4, U5>, "RC5_128_4_5", "RC5", both);
 ct!(rc5::RC5<u8, U1, U3>, "RC5_8_1_3", "RC5", both);
 ct!(rc5::RC5<u16, U2, U1>, "RC5_16_2_1", "RC5", both);
+ct!(rc5::RC5<u8, U255, U255>, "RC5_8_255_255", "RC5", both);
+ct!(rc5::RC5<u128, U255, U16>, "RC5_128_255_16", "RC5", both);
+ct!(rc5::RC5<u64, U0, U8>, "RC5_64_0_8", "RC5", both);
+ct!(rc5::RC5<u16, U1, U0>, "RC5_16_1_0", "RC5", both);
+ct!(rc5::RC5<u128, U12, U255>, "RC5_128_12_255", "RC5", both);
+ct!(rc5::RC5<u64, U20, U9>, "RC5_64_20_9", "RC5", both);
+ct!(rc5::RC5<u8, U0, U0>, "RC5_8_0_0", "RC5", both);
+ct!(rc5::RC5<u16, U16, U3>, "RC5_16_16_3", "RC5", both);
 
 macro_rules! table {
     ($($t:ty),* $(,)?) => {
@@ -172,6 +180,7 @@ table!(
     rc5::RC5<u32, U0, U16>, rc5::RC5<u16, U255, U8>, rc5::RC5<u32, U12, U0>,
     rc5::RC5<u32, U12, U1>, rc5::RC5<u32, U12, U255>, rc5::RC5<u32, U12, U7>,
     rc5::RC5<u64, U12, U13>, rc5::RC5<u128, U4, U5>, rc5::RC5<u8, U1, U3>, rc5::RC5<u16, U2, U1>,
+    rc5::RC5<u8, U255, U255>, rc5::RC5<u128, U255, U16>, rc5::RC5<u64, U0, U8>, rc5::RC5<u16, U1, U0>, rc5::RC5<u128, U12, U255>, rc5::RC5<u64, U20, U9>, rc5::RC5<u8, U0, U0>, rc5::RC5<u16, U16, U3>,
 );
 
 /// The eight 4-bit tables of a Gost89 type, flattened (8 x 16), for the trace (`x` field).
